@@ -45,10 +45,15 @@
    SetSent(false) + exactly one Process of the entry's own message (accept), one SetSent(true)
    (reject), one SetDeferred and the entry kept (defer).  C02_next_session: the same for a
    next session after ARBITRARY outcomes, and a complete next session exists -- so it applies
-   after any number of faulty sessions.  Not yet unconditional: that what the peer stored in
-   the CUT session under one of the owner's MIDs is the owner's message when the owner was not
-   told (conv_delivered takes it as the hypothesis genuine_session; it is decided per run). *)
-From Verif Require Import Base.Bytes B2F.Secure B2F.Side B2F.SideP B2F.CutP B2F.PairDefs B2F.PairHs B2F.PairP B2F.DeliverP B2F.ConvergeP.
+   after any number of faulty sessions.  C02_delivered (B2F/ConvergeCutP.v): every entry
+   the peer's policy accepts is handed to the peer's handler, as the owner's own decompressed
+   message, in the faulty session or in the next complete one -- unconditionally: what a side
+   stores in a CUT session under one of the other side's MIDs is that side's message even
+   when the owner was not told (C02_stored_is_own), and a rejection the owner logged was
+   really answered by the peer's policy (C02_rejected_by_policy).  Open: at most one Process
+   and one SetSent per MID INSIDE the cut session (exactly-once is proved for the next
+   session, and "nothing again for what the first session did"). *)
+From Verif Require Import Base.Bytes B2F.Secure B2F.Side B2F.SideP B2F.CutP B2F.PairDefs B2F.PairHs B2F.PairP B2F.DeliverP B2F.ConvergeP B2F.ConvergeCutP.
 Open Scope N_scope.
 
 (* TWO-PARTY SAFETY *)
@@ -173,3 +178,42 @@ Print Assumptions C02_next_session.
    EOT and the next command, a cut in the second transfer, a storage error *)
 Example C02_convergence_instances := (converge_cut_in_transfer, converge_cut_before_next_command,
                                       converge_cut_in_second_transfer, converge_after_storage_error).
+
+(* DELIVERED: in the faulty session or in the next complete one, as the owner's own message *)
+Theorem C02_delivered : forall (a b : side_cfg) (in_a : bytes) (k : nat) (in_a' in_b' : bytes),
+  c_master a = negb (c_master b) ->
+  hs_compat (if c_master a then a else b) (if c_master a then b else a) ->
+  side_sound a -> side_sound b ->
+  let oa := exchange a in_a in let ob := exchange b (firstn k (x_wire oa)) in
+  in_a = firstn (length in_a) (x_wire ob) ->
+  let a' := next_cfg a oa in let b' := next_cfg b ob in
+  closed a' b' in_a' in_b' ->
+  let oa' := exchange a' in_a' in let ob' := exchange b' in_b' in
+  (forall p, In p (h_outbox (c_handler a)) -> policy_of (c_handler b) (o_mid p) = AAccept ->
+     In (EvProcess (o_mid p) (pm_data p) true) (x_events ob ++ x_events ob')) /\
+  (forall p, In p (h_outbox (c_handler b)) -> policy_of (c_handler a) (o_mid p) = AAccept ->
+     In (EvProcess (o_mid p) (pm_data p) true) (x_events oa ++ x_events oa')).
+Proof. exact convergence_delivered_cut. Qed.
+Print Assumptions C02_delivered.
+
+(* in ANY cut session of two library sides: what y hands to its handler under a MID of x's outbox
+   is x's message (whether or not x was told), and a rejection x logged was y's policy *)
+Theorem C02_stored_is_own : forall (x y : side_cfg) (in_x in_y : bytes),
+  c_master x = negb (c_master y) ->
+  hs_compat (if c_master x then x else y) (if c_master x then y else x) ->
+  Forall prop_syn (h_outbox (c_handler x)) -> Forall prop_syn (h_outbox (c_handler y)) ->
+  Forall prop_wf (h_outbox (c_handler x)) -> NoDup (map o_mid (h_outbox (c_handler x))) ->
+  cut_session x y in_x in_y ->
+  forall p d ok, In p (h_outbox (c_handler x)) ->
+    In (EvProcess (o_mid p) d ok) (x_events (exchange y in_y)) -> d = pm_data p.
+Proof. exact stored_is_own. Qed.
+Print Assumptions C02_stored_is_own.
+
+Theorem C02_rejected_by_policy : forall (x y : side_cfg) (in_x in_y : bytes),
+  c_master x = negb (c_master y) ->
+  hs_compat (if c_master x then x else y) (if c_master x then y else x) ->
+  Forall prop_syn (h_outbox (c_handler x)) -> Forall prop_syn (h_outbox (c_handler y)) ->
+  cut_session x y in_x in_y ->
+  forall m, In (EvSetSent m true) (x_events (exchange x in_x)) -> policy_of (c_handler y) m = AReject.
+Proof. exact rejected_by_policy. Qed.
+Print Assumptions C02_rejected_by_policy.
